@@ -40,6 +40,12 @@ CORPUS = [
     ("1.2021.03", "MAJOR.YYYY.0W", dict(major=True), "2021-01-02"),
     ("1.2.3-beta3", "MAJOR.MINOR.PATCH[-TAGNUM]", dict(tag="beta", tag_num=True), None),   # same tag again: NUM keeps counting
     ("1.9.99-beta", "MAJOR.MINOR[.PATCH][-TAG]", dict(minor=True), None),
+    # %U (weeks from Sunday) and %W (weeks from Monday) differ on Sundays and in years that start on a Monday
+    ("2021.0.7", "YYYY.UU.PATCH", dict(patch=True), "2021-01-03"),
+    ("2024.5.1", "YYYY.UU.PATCH", dict(patch=True), "2024-02-07"),
+    ("2024.05.1", "YYYY.0W.PATCH", dict(patch=True), "2024-02-07"),
+    ("2021.0.7", "YYYY.WW.PATCH", dict(patch=True), "2021-01-03"),
+    ("2019.50.3", "GGGG.VV.PATCH", dict(pin_date=True, patch=True), None),             # --pin-date keeps an ISO year of the past
     # optional groups that end in literal text, or hold INC1 / a week part: omitted exactly when all their PARTS are zero
     ("1.2.3-rc.1-x", "MAJOR.MINOR.PATCH[-TAG[.NUM]-x]", dict(tag="final"), None),
     ("1.2.3-rc.1-x", "MAJOR.MINOR.PATCH[-TAG[.NUM]-x]", dict(major=True, tag="final"), None),
